@@ -960,17 +960,23 @@ func checkPackVerification(c *Ctx) {
 		if !ok {
 			continue
 		}
-		lc, ok := bo.X.(*ssa.Call)
+		// the constant on the right (0 < len(keys) is len(keys) > 0)
+		opN, xN, yN := bo.Op, bo.X, bo.Y
+		if _, isK := constInt(xN); isK {
+			opN, xN, yN = swapOp(opN), yN, xN
+		}
+		lc, ok := xN.(*ssa.Call)
 		if !ok {
 			continue
 		}
 		if bi, isB := lc.Common().Value.(*ssa.Builtin); !isB || bi.Name() != "len" || lc.Common().Args[0] != keys {
 			continue
 		}
-		k, isK := constInt(bo.Y)
+		k, isK := constInt(yN)
 		if !isK {
 			continue
 		}
+		bo = &ssa.BinOp{Op: opN, X: xN, Y: yN}
 		switch {
 		case (bo.Op == token.GTR && k == 0) || (bo.Op == token.NEQ && k == 0) || (bo.Op == token.GEQ && k == 1):
 			lenIf, keysEdge = iff, 0
